@@ -18,6 +18,7 @@ fn main() {
         "c04" => c04::run(&opts),
         "c05" => c05::run(&opts),
         "c06" => c06::run(&opts),
+        "order" => c06::order(&opts),
         "crash-child" => c05::child(&opts),
         "c07" => c07::run(&opts),
         other => {
